@@ -191,6 +191,24 @@ def _flip(p):
 def polarity(nf, ev):
   """'+' non-decreasing in x, '-' non-increasing, '0' constant, '?' unknown.
   `ev` (qir.Eval) supplies signs of sub-expressions on the region."""
+  memo = ev.__dict__.setdefault("_pol_memo", {})
+  r = memo.get(nf)
+  if r is None:
+    r = _polarity(nf, ev)
+    memo[nf] = r
+  return r
+
+
+def atom_polarity(a, ev):
+  memo = ev.__dict__.setdefault("_apol_memo", {})
+  r = memo.get(a)
+  if r is None:
+    r = _atom_polarity(a, ev)
+    memo[a] = r
+  return r
+
+
+def _polarity(nf, ev):
   total = "0"
   for m, c in nf.terms.items():
     dep = [(a, e) for a, e in m if atom_polarity(a, ev) != "0"]
@@ -227,7 +245,7 @@ def polarity(nf, ev):
   return total
 
 
-def atom_polarity(a, ev):
+def _atom_polarity(a, ev):
   if a == ("x",):
     return "+"
   if a[0] != "app":
@@ -262,24 +280,28 @@ def atom_polarity(a, ev):
     pc = polarity(args[0], ev)
     pa, pb = polarity(args[1], ev), polarity(args[2], ev)
     if pc == "0":
-      return _combine(pa, pb) if ev.decide(args[0]) is None else (
-          pa if ev.decide(args[0]) else pb)
-    # where(u <= c, f(u), c)-style min/max patterns
-    c = args[0].single_atom()
-    if c is not None and c[0] == "app" and c[1] == "cmp":
-      l, r = c[3]
-      op = c[2][0]
-      # min(T, E): where(l <=/< r, T, E) with {T,E} monotone and the branch
-      # taken being the smaller (or larger) one of two monotone functions
-      cands = {("le", "min"), ("lt", "min"), ("ge", "max"), ("gt", "max")}
-      if (args[1] == l and args[2] == r) or \
-          (args[1] == r and args[2] == l):
-        # where(l op r, l, r) = min/max(l, r); where(l op r, r, l) likewise
-        return _combine(pa, pb)
-      # where(l <= r, g(l), g'(r))) with r constant and g(l) <= const branch:
-      # accept when the then-branch is an increasing function of l, the else
-      # branch equals that function's value at the threshold (checked by the
-      # caller through value sets); conservatively unknown here.
+      d = ev.decide(args[0])
+      return _combine(pa, pb) if d is None else (pa if d else pb)
+    if pc == "?":
+      return "?"
+    # the condition switches once as x grows: 0 -> 1 when pc == '+'.
+    # low-x branch / high-x branch:
+    low, high = (args[2], args[1]) if pc == "+" else (args[1], args[2])
+    low_truth, high_truth = (False, True) if pc == "+" else (True, False)
+    vl = ev._refine(low, args[0], low_truth)
+    vh = ev._refine(high, args[0], high_truth)
+    pl, ph = polarity(low, ev), polarity(high, ev)
+    both = _combine(pl, ph)
+    if both == "?":
+      return "?"
+    (llo, lhi), (hlo, hhi) = vl.bounds(), vh.bounds()
+    if both in ("+", "0") and lhi is not None and hlo is not None and \
+        lhi <= hlo:
+      return "+" if not (both == "0" and lhi == hlo and vl.is_const() and
+                         vh.is_const()) else "0"
+    if both in ("-", "0") and llo is not None and hhi is not None and \
+        llo >= hhi:
+      return "-"
     return "?"
   if f == "cmp":
     p = polarity(args[0] - args[1], ev)
@@ -306,3 +328,16 @@ def atom_polarity(a, ev):
   # unknown application: constant only if all arguments are
   ps = [polarity(x, ev) for x in args if isinstance(x, NF)]
   return "0" if all(p == "0" for p in ps) else "?"
+
+
+def fold_region(nf, ev):
+  """Substitute finite-valued atoms (sign / comparison / saturated clips)
+  that are constant on the region held by ev."""
+  mp = {}
+  for a in nf.atoms():
+    if a[0] == "app" and a[1] in ("sign", "cmp", "clip", "relu", "where",
+                                  "or", "and", "not"):
+      c = ev.atom(a).const_value()
+      if c is not None:
+        mp[a] = NF.const(c)
+  return nf.subst(mp, simplify_app) if mp else nf
